@@ -198,10 +198,13 @@ info('C11',
      ['MPO numerics; infinite MPOs on a window; W tensors without identity markers: not covered'],
      [])
 info('C13',
+     'P (mechanism only, does not decide energies): Sweep.get_sweep_schedule for every L, n in {1,2}, finite and infinite: equal '
+     'lengths, each step moves by +-1 as announced incl. the wrap to the first entry, every position visited in both directions, the '
+     'environment read next is updated (contracts/c_sweeps.py). '
      'B (bounded, not proof): run() postconditions of two-site / single-site DMRG x mixers x diag_method x chi limits on chains of '
      '3-8 sites against exact diagonalisation in the charge sector of the initial state: normalised, canonical, same sector, reported '
      'E = <H> within truncation, E >= E_exact, untruncated two-site DMRG with mixer exact in energy and state; VUMPS engines on the '
      'infinite transverse-field Ising chain against the analytic energy per site.',
      ['convergence in general: this family cannot decide it', 'sweep schedules and environment bookkeeping as deductive obligations '
-      '(DESIGN 4/C13): not built in this round; the deductive contribution to C13 is nil and the evidence says so'],
+      'of BaseEnvironment: not built; the deductive contribution to C13 is the sweep schedule only'],
      [])
